@@ -663,14 +663,20 @@ class Interp:
         if spec is None:
             return
         env = self.clause_env(fr, extra)
-        for name, fn in spec.invariants:
+        for name, fn in list(spec.invariants) + list(spec.light_invariants):
             goal = fn(env)
             self.ctx.oblige('inv-' + which, 'loop%d/%s' % (ordinal, name), goal,
                             {'loop': ordinal})
 
     def assume_inv(self, spec, fr, extra):
         env = self.clause_env(fr, extra)
-        for name, fn in spec.invariants:
+        self.ctx.heavy_mode = True
+        try:
+            for name, fn in spec.invariants:
+                self.ctx.assume(fn(env), heavy=True)
+        finally:
+            self.ctx.heavy_mode = False
+        for name, fn in spec.light_invariants:
             self.ctx.assume(fn(env))
 
     def clause_env(self, fr, extra=None):
